@@ -759,7 +759,7 @@ func writeEvidence(c *check, tier string, m *shardResult, nviol int, wall time.D
 		"traces_validated_against_impl": m.Evaluations,
 		"exhaustive":                    m.Exhaustive,
 		"distinct_outcomes":             len(m.Outcomes),
-		"outcomes":                      m.Outcomes,
+		"outcomes":                      capOutcomes(m.Outcomes),
 		"bounds":                        m.Bounds,
 		"caps_hit":                      m.Caps,
 		"engine":                        c.engine,
@@ -786,6 +786,31 @@ func writeEvidence(c *check, tier string, m *shardResult, nviol int, wall time.D
 	}
 	os.MkdirAll(dir, 0o755)
 	os.WriteFile(filepath.Join(dir, c.id+".json"), append(b, '\n'), 0o644)
+}
+
+// capOutcomes keeps the evidence file small: per-case outcome strings (one per enumerated case in some checks) are
+// listed up to a limit, in sorted order; the number of distinct outcomes is reported separately in full.
+func capOutcomes(m map[string]int64) map[string]int64 {
+	const limit = 400
+	if len(m) <= limit {
+		return m
+	}
+	keys := make([]string, 0, len(m))
+	for k := range m {
+		keys = append(keys, k)
+	}
+	sort.Strings(keys)
+	out := make(map[string]int64, limit+1)
+	var rest int64
+	for i, k := range keys {
+		if i < limit {
+			out[k] = m[k]
+		} else {
+			rest += m[k]
+		}
+	}
+	out[fmt.Sprintf("(%d more distinct outcomes not listed)", len(m)-limit)] = rest
+	return out
 }
 
 func cmdReplay(path string) int {
